@@ -19,7 +19,7 @@ PROPS = {
         "quick": cfg(16, 20, args=["bin_every=499"]),
         "thorough": cfg(16, 300, args=["bin_every=499"]),
         "rule": "every message parsed from a generated stream (as C01, storage micros < 10^6, both source framings) is written with to_write, re-parsed, written again and decoded by the independent reference decoder; the concatenated export is re-read and re-exported; every 499th storage-framed case additionally goes through the real binary: `adlt convert in.dlt -o a.dlt` must write exactly the bytes of the message-wise export and `adlt convert a.dlt -o b.dlt` must be byte-identical to a.dlt. Non-trivial = original header carried WEID or WSID or MSBF or payload > 60000; distinct = (source framing, header shape, payload size bucket).",
-        "floors": {"quick": {"evaluations": 10000, "distinct_nontrivial": 100, "files_compared": 5000, "bin_export_of_export": 100}, "thorough": {"evaluations": 200000, "distinct_nontrivial": 200}},
+        "floors": {"quick": {"evaluations": 10000, "distinct_nontrivial": 100, "files_compared": 5000, "bin_export_of_export": 50}, "thorough": {"evaluations": 200000, "distinct_nontrivial": 200}},
         "needs_bin": True,
         "assumptions": ["htyp version bits and the original len are not compared (to_write normalises them)", "file level comparison skipped (and counted) when the export contains an embedded marker"],
     },
